@@ -136,9 +136,9 @@ func runCodec(tier string, seed int64, summaryPath, outPath string) {
 	}
 	type cfg struct {
 		subj, data, isig, rsig int
-		cur, sup, weight     uint64
-		vsec, tsec, nsec     int64
-		utf                  bool
+		cur, sup, weight       uint64
+		vsec, tsec, nsec       int64
+		utf                    bool
 	}
 	var cfgs []cfg
 	// boundary product, one dimension at a time around a base point (full product is 9^4*13^3*11^2*3: sampled below)
@@ -186,6 +186,9 @@ func runCodec(tier string, seed int64, summaryPath, outPath string) {
 	// a genuinely signed vertex too: the verification result must survive
 	realT, _ := transaction.New("real", spice.New(3, 4), []byte("d"), w1.Address(), &w0)
 	realV, _ := accountant.NewVertex(realT, [32]byte{1}, [32]byte{2}, 9, &ws)
+	var prevTrxEnc, prevVtxEnc []byte
+	var prevTrx, prevDecoded transaction.Transaction
+	var prevVtx accountant.Vertex
 	for ci, c := range append([]cfg{{}}, cfgs...) {
 		var v accountant.Vertex
 		if ci == 0 {
@@ -288,6 +291,32 @@ func runCodec(tier string, seed int64, summaryPath, outPath string) {
 			sum.Kinds["msgpack.trx"]++
 			if f := sameSignedTrx(&v.Transaction, &got); f != "" {
 				viol("msgpack-trx-field-changed:"+f, map[string]any{"field": f, "case": ci})
+			}
+		}
+		// the encoded form must stay what it was when later values are encoded (it is kept in caches and stores) and a value
+		// decoded earlier must not change either
+		if prevTrxEnc != nil {
+			if got, err := transaction.Decode(prevTrxEnc); err != nil {
+				viol("msgpack-encoded-form-unstable", map[string]any{"case": ci - 1, "err": err.Error()})
+			} else if f := sameSignedTrx(&prevTrx, &got); f != "" {
+				viol("msgpack-encoded-form-unstable", map[string]any{"case": ci - 1, "field": f, "what": "bytes returned by an earlier Encode decode differently after later Encode calls"})
+			}
+			if f := sameSignedTrx(&prevTrx, &prevDecoded); f != "" {
+				viol("msgpack-decoded-value-unstable", map[string]any{"case": ci - 1, "field": f, "what": "a value decoded earlier changed after later Encode calls"})
+			}
+			if prevVtxEnc != nil {
+				if got, err := accountant.VerifDecodeVertex(prevVtxEnc); err != nil || sameSigned(&prevVtx, &got) != "" {
+					viol("msgpack-encoded-form-unstable", map[string]any{"case": ci - 1, "what": "vertex bytes of an earlier encode decode differently now", "err": fmt.Sprint(err)})
+				}
+			}
+			sum.Kinds["msgpack.stability_checked"]++
+		}
+		if enc, err := v.VerifEncode(); err == nil {
+			prevVtxEnc, prevVtx = enc, v
+		}
+		if enc, err := v.Transaction.Encode(); err == nil {
+			if got, err := transaction.Decode(enc); err == nil {
+				prevTrxEnc, prevTrx, prevDecoded = enc, v.Transaction, got
 			}
 		}
 		m := v.Transaction.Spice
